@@ -459,7 +459,7 @@ func genEffects(c *ctx) (string, string) {
 	fmt.Fprintf(&sb, "/-- number of functions reachable from the execution entry points (own CHA call graph) -/\ndef execReachable : Nat := %d\n\n", len(rs))
 	sb.WriteString("/-- sanity anchors: functions that must be in the reachable set if the call graph is not truncated -/\ndef execReachableAnchors : List (String × Bool) := [")
 	anchors := []string{"nodeDocument.Execute", "tagForNode.Execute", "tagIncludeNode.Execute", "variableResolver.resolve", "filterCall.Execute",
-		"filterEscape", "tagMacroNode.call", "TemplateSet.FromFile", "Value.IterateOrder", "Expression.Evaluate", "tagCycleNode.Execute", "nodeHTML.Execute"}
+		"filterEscape", "tagMacroNode.call", "TemplateSet.fromFileFor", "TemplateSet.resolveTemplate", "Value.IterateOrder", "Expression.Evaluate", "tagCycleNode.Execute", "nodeHTML.Execute"}
 	for i, a := range anchors {
 		if i > 0 {
 			sb.WriteString(",")
